@@ -406,6 +406,29 @@ def t5b(F, rep):
 _EXACT_READ = re.compile(r"^(read_exact|read_u8|read_u16|read_u24|read_u32|read_u64|by_ref)$")
 
 
+def t14(F, rep):
+    """A symbol is what the walk of the code tree says it is: each of HuffmanReader's two fetch functions returns the result of
+    one `decode_symbol` call on the tree built from the block's code lengths, on every path and with no decision of its own.
+    A shortcut for "flat" codes that reads n bits and takes them as the symbol (seed10-c03a) is a second decoder whose answer
+    differs from zlib's as soon as an unused symbol lies among the used ones."""
+    want = {"fetch_next_literal_code": "lit_huff_code_tree", "fetch_next_distance_char": "dist_huff_code_tree"}
+    n = 0
+    for name, b in sorted(F.bodies.items()):
+        m = re.search(r"huffman_encoding::HuffmanReader::(fetch_next_\w+)$", name)
+        if not m or m.group(1) not in want:
+            continue
+        n += 1
+        cs = [(bb, t) for bb, t in b.calls() if strip_generics(callee_def(t)).endswith("huffman_helper::decode_symbol")]
+        others = [strip_generics(callee_def(t)) for bb, t in b.calls() if (bb, t) not in cs and not (t.get("exp"))
+                  and not re.search(r"ops::Deref(Mut)?::deref(_mut)?$|::as_slice$|::as_ref$|::borrow$", strip_generics(callee_def(t)))]
+        sw = [b.where(bb) for bb in sorted(b.normal_blocks()) if b.term(bb)["k"] == "switch"]
+        tree = flow.describe(b, cs[0][1]["args"][1], names=True) if len(cs) == 1 else ""
+        ok = len(cs) == 1 and not sw and want[m.group(1)] in tree and not others
+        rep.add("T14", "symbol-is-the-tree-walk:" + m.group(1), ok, "%s:%s" % (b.file, b.line),
+                "%d decode_symbol call(s) on %s; decisions of its own at %s; other calls %s" % (len(cs), tree[:80] or "-", sw or "none", others[:3] or "none"))
+    rep.floor("T14", "fetch-functions", n, 2)
+
+
 def t13(F, rep):
     """The header reader records the code-length symbol it read and nothing else: every TreeCodeType value built in
     HuffmanOriginalEncoding::read sits on the edge of the symbol test that names it (16 -> Repeat, 17 -> ZeroShort, 18 ->
@@ -548,6 +571,7 @@ def run(ctx, rep):
     t11(F, rep)
     t12(F, rep)
     t13(F, rep)
+    t14(F, rep)
     t8(F, rep)
     t9(F, rep)
     # T10: what is decoded is the caller's byte string from its first byte (no header guessed away in front of it), and the
